@@ -283,6 +283,16 @@ def oracle_multiplex(case, ctx):
     discs = []
     for a, b in zip(got, exp):
         discs += same(a, b, "multiplex", desc)
+    # re-selection on the SAME instance: set_params(selected_forecaster=...) then fit again
+    if not discs and len(spec["members"]) > 1:
+        other = (spec["selected"] + 1) % len(spec["members"])
+        f = pools.build_forecaster(spec)
+        r = sut(f.fit, y0.copy(), None, fh_obj(case, y0.index[-1]))
+        if not isinstance(r, Raised):
+            f.set_params(selected_forecaster="m%d" % other)
+            a = sut(lambda: f.fit(y0.copy(), None, fh_obj(case, y0.index[-1])).predict())
+            b = sut(lambda: pools.build_forecaster(spec["members"][other]).fit(y0.copy(), None, fh_obj(case, y0.index[-1])).predict())
+            discs += same(a, b, "multiplex_reselected", desc)
     return discs
 
 
